@@ -243,6 +243,50 @@ func (m *c15mfWorld) oracle(o *vOut, i int, after string) {
 			return l
 		}
 		hs, ws := render(have), render(want)
+		if sm := int(p.sendMax[f]); sm > 0 {
+			// ADD-PATH send with send-max: WHICH eligible paths the peer holds depends on the
+			// arrival order (first come, first served); per prefix it must hold
+			// min(send-max, #eligible) of them, each under its local path-id with the attributes
+			// the CURRENT export policy gives it, and nothing else
+			for _, pf := range c15mfPrefixes[f] {
+				nHave, nWant := 0, 0
+				for k, dg := range have {
+					if strings.SplitN(k, "#", 2)[0] != pf {
+						continue
+					}
+					nHave++
+					cls := ""
+					switch w, ok := want[k]; {
+					case !ok:
+						cls = "holds-ineligible-path"
+					case w != dg:
+						cls = "holds-stale-attributes"
+					}
+					if cls != "" {
+						o.fail(fmt.Sprintf("addpath-view!=fresh-export:%s:%s:sendmax=%s:%s", f.String(), cls, c15mfSM(sm), strings.Fields(after)[0]),
+							map[string]any{"peer": i, "family": f.String(), "send_max": sm, "prefix": pf, "key": k, "holds": hs, "eligible_fresh_exports": ws, "after": after, "history": append([]string{}, m.hist...)})
+					}
+				}
+				for k := range want {
+					if strings.SplitN(k, "#", 2)[0] == pf {
+						nWant++
+					}
+				}
+				o.stat(fmt.Sprintf("mf_addpath_prefix_checks_sendmax_%s_eligible_%d", c15mfSM(sm), nWant), 1)
+				if nWant > sm {
+					nWant = sm
+				}
+				if nHave != nWant {
+					cls := "fewer-than-min(send-max,eligible)"
+					if nHave > nWant {
+						cls = "more-than-send-max"
+					}
+					o.fail(fmt.Sprintf("addpath-view!=fresh-export:%s:%s:sendmax=%s:%s", f.String(), cls, c15mfSM(sm), strings.Fields(after)[0]),
+						map[string]any{"peer": i, "family": f.String(), "send_max": sm, "prefix": pf, "holds": hs, "eligible_fresh_exports": ws, "after": after, "history": append([]string{}, m.hist...)})
+				}
+			}
+			continue
+		}
 		if strings.Join(hs, " ") != strings.Join(ws, " ") {
 			mode := "best-only"
 			if p.sendMax[f] > 0 {
@@ -252,6 +296,103 @@ func (m *c15mfWorld) oracle(o *vOut, i int, after string) {
 			o.fail(cls, map[string]any{"peer": i, "family": f.String(), "holds": hs, "fresh_export": ws, "after": after, "history": append([]string{}, m.hist...)})
 		}
 	}
+}
+
+// snapshot of what peer i holds and of its sentPaths
+func (m *c15mfWorld) snap(i int) string {
+	vp := m.peers[i].vp
+	var l []string
+	for k, h := range vp.view {
+		l = append(l, k+"="+h.digest)
+	}
+	sort.Strings(l)
+	var sent []string
+	vp.p.sentPaths.Range(func(k, v any) bool {
+		ids := []int{}
+		for id := range v.(pathIDSet) {
+			ids = append(ids, int(id))
+		}
+		sort.Ints(ids)
+		if len(ids) > 0 {
+			sent = append(sent, fmt.Sprintf("%s%v", k.(table.PathDestLocalKey).Prefix, ids))
+		}
+		return true
+	})
+	sort.Strings(sent)
+	return strings.Join(l, " ") + " | sent: " + strings.Join(sent, " ")
+}
+
+// repeat: the same re-advertisement again changes neither the view nor sentPaths
+func (m *c15mfWorld) repeat(o *vOut, i int, how string) {
+	before := m.snap(i)
+	m.cw.reset([]string{how, fmt.Sprint(i)})
+	m.note("%s %d (repeat)", how, i)
+	m.flushAll()
+	if after := m.snap(i); after != before {
+		o.fail("mf-repeat-changes-state:"+how, map[string]any{"peer": i, "before": before, "after": after, "history": append([]string{}, m.hist...)})
+	}
+	o.stat("mf_repeats", 1)
+}
+
+// c15mfEdgeCase: deterministic send-max = 1 histories. One IPv4 prefix, two sources; the target
+// has ADD-PATH send with send-max 1 and holds the path that arrived FIRST, which is not the best
+// one (the better path arrived later and is held back). `rejectHeld`: the export policy changes
+// to reject the path the peer holds and accept the other one; otherwise it changes to add a
+// community to everything. After the soft reset out (`how`) the peer must hold exactly one
+// eligible path with the attributes of the current policy, and a second reset changes nothing.
+func c15mfEdgeCase(t *testing.T, o *vOut, how string, rejectHeld bool) {
+	cw := newC15World(t)
+	defer cw.w.stop()
+	m := &c15mfWorld{cw: cw}
+	for i := 0; i < 2; i++ {
+		m.addPeer(vwPeerSpec{kind: "ebgp", as: uint32(65001 + i), rid: c15IP(10, 0, 0, byte(1+i)), addr: c15IP(192, 168, 0, byte(1+i))},
+			map[bgp.Family]uint8{}, true)
+	}
+	m.addPeer(vwPeerSpec{kind: "ibgp", as: 65000, rid: c15IP(10, 0, 0, 11), addr: c15IP(192, 168, 0, 11)},
+		map[bgp.Family]uint8{bgp.RF_IPv4_UC: 1}, false)
+	for i := 0; i < 3; i++ {
+		m.up(i)
+	}
+	// first (longer AS_PATH, tagged 65533:1), then the better one (tagged 65533:2): held back
+	m.announce(0, &c15mfRoute{fam: bgp.RF_IPv4_UC, pfx: 0, marker: 1, seq: []uint32{65001, 100, 200}, comms: []uint32{c15Tags[0]}})
+	m.announce(1, &c15mfRoute{fam: bgp.RF_IPv4_UC, pfx: 0, marker: 2, seq: []uint32{65002}, comms: []uint32{c15Tags[1]}})
+	m.flushAll()
+	m.oracle(o, 2, "check")
+	var pol c15Pol
+	if rejectHeld {
+		pol = c15Pol{dflt: true, stmts: []c15Stmt{{anyPeer: true, hasComm: true, comms: []uint32{c15Tags[0]}, route: 2}}}
+	} else {
+		v := uint32(0xfffc0001)
+		pol = c15Pol{dflt: true, stmts: []c15Stmt{{anyPeer: true, add: &v}}}
+	}
+	cw.install(1, pol, 0)
+	m.note("%s", pol.line("exp"))
+	if how == "refresh" {
+		cw.w.recv(m.peers[2].vp, bgp.NewBGPRouteRefreshMessage(bgp.AFI_IP, 0, bgp.SAFI_UNICAST))
+	} else {
+		cw.reset([]string{how, "2"})
+	}
+	m.note("%s 2", how)
+	m.flushAll()
+	m.oracle(o, 2, how)
+	if how != "refresh" {
+		m.repeat(o, 2, how)
+	}
+	if rejectHeld {
+		// the path the reset has just advertised (it had been held back before) is withdrawn by
+		// its source: the peer must not keep it
+		m.withdraw(1, bgp.RF_IPv4_UC, 0)
+		m.flushAll()
+		m.oracle(o, 2, "withdraw-after-"+how)
+	}
+	o.stat("mf_edge_cases", 1)
+}
+
+func c15mfSM(sm int) string {
+	if sm > 3 {
+		return "many"
+	}
+	return fmt.Sprint(sm)
 }
 
 func c15mfHistory(t *testing.T, o *vOut, r *vRand, idx int) {
@@ -265,13 +406,19 @@ func c15mfHistory(t *testing.T, o *vOut, r *vRand, idx int) {
 			map[bgp.Family]uint8{}, true)
 	}
 	// two or three targets with different per-family ADD-PATH send settings
-	shapes := [][2]uint8{{0, 8}, {8, 0}, {0, 0}, {8, 8}}
+	// send-max at the edges: 1 (the smallest value that enables ADD-PATH sending), 2, 3 (= the
+	// number of sources, i.e. of paths a prefix can have), 8 (more than there are paths)
+	sms := []uint8{1, 1, 2, 3, 8}
+	sm := func() uint8 { return sms[r.intn(len(sms))] }
 	nT := 2 + r.intn(2)
-	perm := r.perm(len(shapes))
 	for k := 0; k < nT; k++ {
-		sh := shapes[perm[k]]
-		if k == 0 {
-			sh = shapes[r.intn(2)] // at least one target with ADD-PATH send on exactly one family
+		var sh [2]uint8
+		switch x := r.intn(100); {
+		case k == 0 || x < 35:
+			// ADD-PATH send on exactly one family
+			sh[r.intn(2)] = sm()
+		case x < 80:
+			sh = [2]uint8{sm(), sm()}
 		}
 		kind := r.pickStr("ebgp", "ibgp", "rrc")
 		sp := vwPeerSpec{kind: kind, as: 65000, rid: c15IP(10, 0, 0, byte(11+k)), addr: c15IP(192, 168, 0, byte(11+k))}
@@ -279,7 +426,7 @@ func c15mfHistory(t *testing.T, o *vOut, r *vRand, idx int) {
 			sp.as = uint32(65011 + k)
 		}
 		m.addPeer(sp, map[bgp.Family]uint8{bgp.RF_IPv4_UC: sh[0], bgp.RF_IPv6_UC: sh[1]}, false)
-		o.stat(fmt.Sprintf("mf_target_sendmax_%d_%d", sh[0], sh[1]), 1)
+		o.stat(fmt.Sprintf("mf_target_sendmax_%s_%s", c15mfSM(int(sh[0])), c15mfSM(int(sh[1]))), 1)
 	}
 	nP := len(m.peers)
 	setExp := func(pol c15Pol) {
@@ -365,6 +512,9 @@ func c15mfHistory(t *testing.T, o *vOut, r *vRand, idx int) {
 			m.flushAll()
 			m.oracle(o, i, how)
 			o.stat("mf_reset_"+how, 1)
+			if r.chance(50) {
+				m.repeat(o, i, how)
+			}
 		case x < 94:
 			// single-family ROUTE-REFRESH
 			i := 3 + r.intn(nP-3)
@@ -418,8 +568,13 @@ func TestVerifC15MF(t *testing.T) {
 	o := vOpen(t)
 	defer o.close()
 	defer func(v bool) { table.SelectionOptions.AlwaysCompareMed = v }(table.SelectionOptions.AlwaysCompareMed)
+	for _, how := range []string{"softout", "refresh"} {
+		for _, rej := range []bool{true, false} {
+			c15mfEdgeCase(t, o, how, rej)
+		}
+	}
 	r := &vRand{s: o.seed*49979687 + 19}
-	n := 60
+	n := 50
 	if o.thorough {
 		n = 900
 	}
